@@ -33,7 +33,11 @@ Inductive outcome :=
 
 Record state := mkState {
   s_pc : Z; s_stk : list Z; s_mem : list Z; s_fee : Z (* Memory.lastGasCost *); s_gas : Z;
-  s_maxh : Z (* largest stack height seen *)
+  s_maxh : Z (* largest stack height seen *);
+  s_rd : list Z (* EVMInterpreter.returnData *);
+  s_cgt : Z (* evm.callGasTemp: gas handed to the callee, set by the call's dynamic gas function *);
+  s_bad : bool (* ghost monitor, not part of the implementation: set once a call to the identity precompile either
+                  ran out of callee gas or returned data that differs from its input (see call_identity) *)
 }.
 
 (* ---- bytes and words ---------------------------------------------------------------------- *)
@@ -123,6 +127,32 @@ Definition sha3_gas (mag : Z) (memlen lastfee newsize words_operand : Z) : optio
                    if o3 then None else Some (g3, last')
   end.
 
+(* gas.go callGas (EIP-150 branch): all but one 64th of what is left after the base cost, capped by the request;
+   the subtraction is a plain uint64 one *)
+Definition call_temp (avail base cost : Z) : Z :=
+  let a := (avail - base) mod U64 in
+  let g := a - a / 64 in
+  if negb (cost <? U64) || (g <? cost) then g else cost.
+(* gasStaticCall, and gasCall for a call that transfers no value: memory fee + callGasTemp *)
+Definition call_gas (mag : Z) (avail memlen lastfee newsize cost : Z) : option (Z * Z) :=
+  match memory_gas_cost mag memlen lastfee newsize with
+  | None => None
+  | Some (mg, last') =>
+    let '(g, o) := safe_add mg (call_temp avail mg cost) in
+    if o then None else Some (g, last')
+  end.
+Definition call_temp_of (mag : Z) (avail memlen lastfee newsize cost : Z) : Z :=
+  match memory_gas_cost mag memlen lastfee newsize with
+  | None => 0
+  | Some (mg, _) => call_temp avail mg cost
+  end.
+(* memoryCall / memoryStaticCall: the larger of the output and input ranges *)
+Definition call_mem_size (roff rsz ioff isz : Z) : Z * bool :=
+  let '(x, ox) := calc_mem_size roff rsz in
+  if ox then (0, true)
+  else let '(y, oy) := calc_mem_size ioff isz in
+       if oy then (0, true) else (if y <? x then x else y, false).
+
 Definition bit_len (x : Z) : Z := if x =? 0 then 0 else Z.log2 x + 1.
 (* gasExpEIP158 *)
 Definition exp_gas (mag exponent : Z) : option Z :=
@@ -149,7 +179,7 @@ Inductive kind :=
 | KCallDataLoad | KCallDataSize | KCallDataCopy | KCodeSize | KCodeCopy
 | KPop | KMload | KMstore | KMstore8 | KJump | KJumpi | KPc | KMsize | KGas | KJumpdest
 | KMcopy | KPush0 | KPush (n : Z) | KDup (n : Z) | KSwap (n : Z) | KReturn | KRevert
-| KSha3 | KEnv (e : envk) | KRetDataSize | KRetDataCopy | KOther.
+| KSha3 | KEnv (e : envk) | KRetDataSize | KRetDataCopy | KCall | KStaticCall | KOther.
 
 Definition decode (b : Z) : kind :=
   if b =? 0 then KStop else if b =? 1 then KArith2 ADD else if b =? 2 then KArith2 MUL
@@ -177,10 +207,18 @@ Definition decode (b : Z) : kind :=
   else if (96 <=? b) && (b <=? 127) then KPush (b - 95)
   else if (128 <=? b) && (b <=? 143) then KDup (b - 127)
   else if (144 <=? b) && (b <=? 159) then KSwap (b - 143)
+  else if b =? 241 then KCall else if b =? 250 then KStaticCall
   else if b =? 243 then KReturn else if b =? 253 then KRevert
   else KOther.
 
 Definition znth {A} (l : list A) (i : Z) (d : A) : A := nth (Z.to_nat i) l d.
+
+Fixpoint zlist_eq (a b : list Z) : bool :=
+  match a, b with
+  | [], [] => true
+  | x :: a', y :: b' => (x =? y) && zlist_eq a' b'
+  | _, _ => false
+  end.
 
 (* stack helpers: head of the list is the top of the stack *)
 (* a slot holds 256 bits: v mod 2^256, computed as a mask (Z.land_ones) *)
@@ -211,6 +249,8 @@ Section Machine.
     | KMstore8 => Some (calc_mem_size_u (b 0) 1)
     | KCallDataCopy | KCodeCopy | KRetDataCopy => Some (calc_mem_size (b 0) (b 2))
     | KSha3 => Some (calc_mem_size (b 0) (b 1))
+    | KStaticCall => Some (call_mem_size (b 4) (b 5) (b 2) (b 3))
+    | KCall => Some (call_mem_size (b 5) (b 6) (b 3) (b 4))
     | KMcopy => Some (calc_mem_size (if b 0 <? b 1 then b 1 else b 0) (b 2))
     | KReturn | KRevert => Some (calc_mem_size (b 0) (b 1))
     | _ => None
@@ -225,14 +265,41 @@ Section Machine.
     | KCallDataCopy | KCodeCopy | KMcopy | KRetDataCopy =>
         Some (copier_gas mag (zlen (s_mem st)) (s_fee st) msize (b 2))
     | KSha3 => Some (sha3_gas mag (zlen (s_mem st)) (s_fee st) msize (b 1))
+    | KCall | KStaticCall => Some (call_gas mag (s_gas st) (zlen (s_mem st)) (s_fee st) msize (b 0))
     | KArith2 EXP => Some (match exp_gas mag (b 1) with Some g => Some (g, s_fee st) | None => None end)
     | _ => None
+    end.
+
+  (* evm.callGasTemp as left behind by the dynamic gas function *)
+  Definition cgt_of (k : kind) (st : state) (msize : Z) : Z :=
+    match k with
+    | KCall | KStaticCall => call_temp_of mag (s_gas st) (zlen (s_mem st)) (s_fee st) msize (znth (s_stk st) 0 0)
+    | _ => s_cgt st
     end.
 
   Inductive stepres := Next (st : state) | Done (o : outcome).
 
   Definition upd (st : state) (pc : Z) (stk mem : list Z) : state :=
-    mkState pc stk mem (s_fee st) (s_gas st) (Z.max (s_maxh st) (zlen stk)).
+    mkState pc stk mem (s_fee st) (s_gas st) (Z.max (s_maxh st) (zlen stk)) (s_rd st) (s_cgt st) (s_bad st).
+  Definition upd_call (st : state) (pc : Z) (stk mem rd : list Z) (gas : Z) (bad : bool) : state :=
+    mkState pc stk mem (s_fee st) gas (Z.max (s_maxh st) (zlen stk)) rd (s_cgt st) (s_bad st || bad).
+
+  (* opCall / opStaticCall towards the identity precompile (address 4, contracts.go dataCopy), no value:
+     args is a window into the caller's memory (GetPtr), dataCopy.Run returns that very slice, opCall copies it into
+     the output area (memory.Set; Go's copy behaves as if the source were read first) and Run then snapshots the
+     window -- AFTER that copy -- as the return data. *)
+  Definition call_identity (opc : Z) (st : state) (addr ioff isz roff rsz : Z) (r : list Z) : stepres :=
+    let pc := s_pc st in let m := s_mem st in
+    if negb (addr mod 2 ^ 160 =? 4) then Done (OUnmodelled opc)
+    else
+      let args := if isz mod U64 =? 0 then [] else slice m (ioff mod U64) (isz mod U64) in
+      let cost := (zlen args + 31) / 32 * 3 + 15 in                      (* dataCopy.RequiredGas *)
+      if s_cgt st <? cost
+      then Next (upd_call st (pc + 1) (wpush 0 r) m [] (s_gas st) true) (* callee out of gas: 0, nothing written, no data *)
+      else
+        let m' := mem_set m (roff mod U64) (rsz mod U64) args in
+        let rd := if isz mod U64 =? 0 then [] else slice m' (ioff mod U64) (isz mod U64) in
+        Next (upd_call st (pc + 1) (wpush 1 r) m' rd (s_gas st + (s_cgt st - cost)) (negb (zlist_eq rd args))).
 
   (* execute + the interpreter's pc update.  [st] already has gas deducted and memory resized. *)
   Definition exec (k : kind) (opc : Z) (st : state) : stepres :=
@@ -285,14 +352,17 @@ Section Machine.
         let data := if size mod U64 =? 0 then [] else slice m (off mod U64) (size mod U64) in
         Next (upd st (pc + 1) (wpush (hash data) r) m)
     | KEnv e, _ => Next (upd st (pc + 1) (wpush (env_get E e) s) m)
-    | KRetDataSize, _ => Next (upd st (pc + 1) (wpush 0 s) m)      (* Run resets returnData; no call opcode is modelled *)
+    | KRetDataSize, _ => Next (upd st (pc + 1) (wpush (zlen (s_rd st)) s) m)
     | KRetDataCopy, mo :: dof :: l :: r =>
-        (* opReturnDataCopy over an empty return buffer: the data offset must fit 64 bits, end = offset + length
-           (256-bit add) must fit 64 bits and not exceed len(returnData) = 0 *)
+        (* opReturnDataCopy: the data offset must fit 64 bits, end = offset + length (256-bit add) must fit 64 bits
+           and not exceed len(returnData) *)
         if negb (dof <? U64) then Done (OFail ERetDataOOB)
         else let e := (dof + l) mod W in
-             if negb (e <? U64) || (0 <? e) then Done (OFail ERetDataOOB)
-             else Next (upd st (pc + 1) r m)
+             if negb (e <? U64) || (zlen (s_rd st) <? e) then Done (OFail ERetDataOOB)
+             else Next (upd st (pc + 1) r (mem_set m (mo mod U64) (l mod U64) (slice (s_rd st) dof (e - dof))))
+    | KStaticCall, _ :: addr :: ioff :: isz :: roff :: rsz :: r => call_identity opc st addr ioff isz roff rsz r
+    | KCall, _ :: addr :: v :: ioff :: isz :: roff :: rsz :: r =>
+        if v =? 0 then call_identity opc st addr ioff isz roff rsz r else Done (OUnmodelled opc)
     | KReturn, off :: size :: _ =>
         Done (OReturn (if size mod U64 =? 0 then [] else slice m (off mod U64) (size mod U64)) (s_gas st))
     | KRevert, off :: size :: _ =>
@@ -311,7 +381,7 @@ Section Machine.
       else if r_max rw <? h then Done (OFail EOverflow)
       else if s_gas st <? r_gas rw then Done (OFail EOOG)
       else
-        let st1 := mkState (s_pc st) (s_stk st) (s_mem st) (s_fee st) (s_gas st - r_gas rw) (s_maxh st) in
+        let st1 := mkState (s_pc st) (s_stk st) (s_mem st) (s_fee st) (s_gas st - r_gas rw) (s_maxh st) (s_rd st) (s_cgt st) (s_bad st) in
         let k := decode opc in
         match k with
         | KOther => Done (OUnmodelled opc)
@@ -333,13 +403,13 @@ Section Machine.
               | Some None => None
               | Some (Some (g, fee')) =>
                   if s_gas st1 <? g then None
-                  else Some (mkState (s_pc st1) (s_stk st1) (s_mem st1) fee' (s_gas st1 - g) (s_maxh st1))
+                  else Some (mkState (s_pc st1) (s_stk st1) (s_mem st1) fee' (s_gas st1 - g) (s_maxh st1) (s_rd st1) (cgt_of k st1 msize) (s_bad st1))
               end in
             match after_dyn with
             | None => Done (OFail EOOG)
             | Some st2 =>
               let st3 := if 0 <? msize
-                         then mkState (s_pc st2) (s_stk st2) (mem_resize (s_mem st2) msize) (s_fee st2) (s_gas st2) (s_maxh st2)
+                         then mkState (s_pc st2) (s_stk st2) (mem_resize (s_mem st2) msize) (s_fee st2) (s_gas st2) (s_maxh st2) (s_rd st2) (s_cgt st2) (s_bad st2)
                          else st2 in
               exec k opc st3
             end
@@ -355,7 +425,17 @@ Section Machine.
              end
     end.
 
-  Definition init (gas : Z) : state := mkState 0 [] [] 0 gas 0.
+  (* the ghost monitor at the end of a run *)
+  Fixpoint run_flag (fuel : nat) (st : state) : bool :=
+    match fuel with
+    | O => s_bad st
+    | S k => match step st with
+             | Done _ => s_bad st
+             | Next st' => run_flag k st'
+             end
+    end.
+
+  Definition init (gas : Z) : state := mkState 0 [] [] 0 gas 0 [] 0 false.
 
   (* evm.Call on an account holding [c]: empty code returns at once with the gas untouched *)
   Definition call (fuel : nat) (gas : Z) : outcome * Z :=
